@@ -161,12 +161,54 @@ func c12(c *Ctx) {
 						}
 						if (isLbl(l) && flow.Default.AnyCall(r, hashName)) || (isLbl(r) && flow.Default.AnyCall(l, hashName)) {
 							okCmp = true
+							// the value compared is this reconcile's Hash() itself: no remembered
+							// hash (map/field read) and no other call may supply it
+							side := r
+							if isLbl(r) {
+								side = l
+							}
+							fresh := true
+							why := ""
+							for x := range flow.Strict.Back(side) {
+								switch y := x.(type) {
+								case *ssa.Call:
+									if cfgx.CalleeName(y) != hashName {
+										fresh, why = false, "a call to "+cfgx.ShortCallee(cfgx.CalleeName(y))
+									}
+								case *ssa.Lookup:
+									fresh, why = false, "a map read"
+								case *ssa.FieldAddr, *ssa.Field:
+									fresh, why = false, "a field read"
+								}
+							}
+							c.R.Check(fresh, load.FuncName(rec)+": current hash is computed, not remembered", c.pos(bo.Pos()), "the hash compared is Composition.Hash() of the object read in this reconcile", "the hash compared can come from "+why+": content that changes without the remembered key changing (labels, annotations) is never captured by a revision")
 						}
 					}
 				}
 			}
 			c.R.Check(okCmp, load.FuncName(rec)+": compares hash label", c.pos(rec.Pos()), "the revision's hash label is compared with the Composition's current hash", "no comparison of the revision's hash label with Composition.Hash() found")
 		}
+	}
+
+	if lrf := c.fn("apis/apiextensions/v1", "LatestRevision"); lrf != nil {
+		// the helper's contract — highest-numbered controlled revision — is what
+		// the numbering and the Automatic selection rely on: nothing else decides
+		var loop map[*ssa.BasicBlock]bool
+		for _, x := range calls(lrf, metaIsControlledBy) {
+			loop = cfgx.LoopOf(x.Block())
+		}
+		early := 0
+		if loop != nil {
+			early = len(cfgx.ReturnsFromLoop(loop))
+		}
+		other := ""
+		for _, x := range cfgx.Calls(lrf, nil) {
+			n := cfgx.CalleeName(x)
+			if n != metaIsControlledBy && !strings.HasPrefix(n, "builtin.") {
+				other = cfgx.ShortCallee(n)
+			}
+		}
+		c.R.Check(loop != nil && early == 0 && other == "", load.FuncName(lrf)+": highest controlled revision, nothing else", c.pos(lrf.Pos()), "scans every revision; only IsControlledBy and the revision number decide", "LatestRevision returns from inside its scan or consults "+other+": it no longer is the highest-numbered controlled revision its callers assume")
 	}
 
 	c.R.Rule("R12.3", "no stale controller-filtered aggregate: adoption completes, in place, before LatestRevision", 3,
